@@ -59,7 +59,10 @@ def snake(t):
     return t[0].lower() + t[1:]
 
 
-def gen_driver_rs(prog, module_path, extra=""):
+def gen_driver_rs(prog, module_path, extra="", inspect_path=None):
+    """inspect_path: Rust source (translate/desc.py::inspect_rs) included in the same `mod th` as the generated
+    module (its fields are private); enables `x inspect` and the observation of every point where close_until
+    evaluates its condition (lines starting with "X ")."""
     sig = prog["sig"]
     nt = sig["ntypes"]
     rels = sig["rels"]
@@ -67,7 +70,14 @@ def gen_driver_rs(prog, module_path, extra=""):
     L = []
     w = L.append
     w("#![allow(warnings)]")
-    w("mod th { include!(\"%s\"); }" % module_path)
+    if inspect_path is None:
+        w("mod th { include!(\"%s\"); }" % module_path)
+        w("const INSPECT: bool = false;")
+        w("fn inspect_state(m: &th::Thy) -> String { String::new() }")
+    else:
+        w("mod th { include!(\"%s\"); include!(\"%s\"); }" % (module_path, inspect_path))
+        w("const INSPECT: bool = true;")
+        w("fn inspect_state(m: &th::Thy) -> String { m.verif_inspect() }")
     w("use th::*;")
     w("use std::io::{self, Read, Write};")
     w("type M = Thy;")
@@ -180,9 +190,15 @@ fn main() {
             "d" => { let a = nums(1); let els: Vec<u32> = a[1..].iter().map(|&i| h[i].1).collect(); let e = define(&mut m, a[0], &els);
                      let ty = *REL_TYPES[a[0]].last().unwrap(); h.push((ty, e)); writeln!(out, "d {}", e).unwrap(); }
             "e" => { let a = nums(1); equate(&mut m, a[0], h[a[1]].1, h[a[2]].1); writeln!(out, "e").unwrap(); }
-            "c" => { iters.set(0); m.close_until(|_| { iters.set(iters.get() + 1); false }); writeln!(out, "c {}", iters.get()).unwrap(); }
+            "c" => { iters.set(0); let obs: std::cell::RefCell<Vec<String>> = std::cell::RefCell::new(Vec::new());
+                     m.close_until(|mm| { iters.set(iters.get() + 1); if INSPECT { obs.borrow_mut().push(inspect_state(mm)); } false });
+                     for o in obs.into_inner() { writeln!(out, "X{}", o).unwrap(); }
+                     writeln!(out, "c {}", iters.get()).unwrap(); }
             "u" => { let mut pos = 1; let c = parse_cond(&t, &mut pos); let hh = h.clone();
-                     let r = m.close_until(|mm| eval_cond(mm, &c, &hh)); let after = eval_cond(&m, &c, &h);
+                     let obs: std::cell::RefCell<Vec<String>> = std::cell::RefCell::new(Vec::new());
+                     let r = m.close_until(|mm| { if INSPECT { obs.borrow_mut().push(inspect_state(mm)); } eval_cond(mm, &c, &hh) });
+                     for o in obs.into_inner() { writeln!(out, "X{}", o).unwrap(); }
+                     let after = eval_cond(&m, &c, &h);
                      writeln!(out, "u {} {}", r as u8, after as u8).unwrap(); }
             "D" => {
                 let mut s = String::from("D");
@@ -218,6 +234,20 @@ fn main() {
 '''
 
 DEFAULT_EXTRA = "fn extra_call(m: &mut M, t: &[&str], h: &[(usize, u32)], out: &mut dyn Write) {}\n"
+
+# `x inspect` prints every private field ("X ..."); `x qp R id..` / `x qf F id..` query with RAW element ids (not
+# handles), so that arguments can be replaced by arbitrary equal non-root elements.
+INSPECT_EXTRA = r'''
+fn extra_call(m: &mut M, t: &[&str], h: &[(usize, u32)], out: &mut dyn Write) {
+    let nums = |from: usize| -> Vec<u32> { t[from..].iter().map(|x| x.parse().unwrap()).collect() };
+    match t[1] {
+        "inspect" => { writeln!(out, "X{}", inspect_state(m)).unwrap(); }
+        "qp" => { let a = nums(2); writeln!(out, "xqp {}", holds(m, a[0] as usize, &a[1..]) as u8).unwrap(); }
+        "qf" => { let a = nums(2); match eval(m, a[0] as usize, &a[1..]) { Some(v) => writeln!(out, "xqf {}", v).unwrap(), None => writeln!(out, "xqf -").unwrap() } }
+        _ => panic!("bad extra call"),
+    }
+}
+'''
 
 
 def call_txt(c):
@@ -258,11 +288,14 @@ class Built:
     def run(self, calls, timeout=30, env=None, prefix=""):
         """Returns (lines, status) with status in ok|timeout|crash:<rc>."""
         inp = "; ".join(call_txt(c) for c in calls)
-        cmd = "ulimit -v 4000000; %s exec %s" % (prefix, self.exe)
+        # the limit is CPU time (robust against a loaded machine); the wall-clock limit is only a backstop
+        cmd = "ulimit -v 4000000; ulimit -t %d; exec %s%s" % (timeout, prefix, self.exe)
         try:
             p = subprocess.run(cmd, shell=True, input=inp, stdout=subprocess.PIPE, stderr=subprocess.PIPE, text=True,
-                               timeout=timeout, env=env)
+                               timeout=timeout * 30, env=env)
         except subprocess.TimeoutExpired:
+            return [], "timeout"
+        if p.returncode in (-9, -24, 137, 152) or "memory allocation of" in p.stderr:
             return [], "timeout"
         lines = p.stdout.splitlines()
         if p.returncode != 0 or not lines or lines[-1] != "END":
@@ -273,15 +306,18 @@ class Built:
         shutil.rmtree(self.dir, ignore_errors=True)
 
 
-def compile_program(prog, workdir, mode="module", extra=DEFAULT_EXTRA, text=None):
-    """-> (Built | None, status, log). status: ok | rejected | compiler_panic | rustc_failed"""
+def compile_program(prog, workdir, mode="module", extra=DEFAULT_EXTRA, text=None, inspect=False, build_driver=None):
+    """-> (Built | None, status, log). status: ok | rejected | compiler_panic | rustc_failed | desc_failed
+    inspect=True: the emitted text is translated by translate/desc.py (Built.desc, Built.module_text), the generated
+    inspection impl is compiled into the module, `x inspect` / `x qp` / `x qf` work and every close observes the
+    state at each condition-evaluation point.  build_driver: alternative compiler binary (scratch builds)."""
     shutil.rmtree(workdir, ignore_errors=True)
     ind, outd, comp = (os.path.join(workdir, x) for x in ("in", "out", "comp"))
     for d in (ind, outd, comp):
         os.makedirs(d)
     with open(os.path.join(ind, "thy.eql"), "w") as f:
         f.write(text if text is not None else prog_eql(prog))
-    bd = os.path.join(CACHE, "target", "release", "build-driver")
+    bd = build_driver or os.path.join(CACHE, "target", "release", "build-driver")
     rlib = runtime_rlib()
     if mode == "module":
         rc, out = sh([bd, "module", ind, outd], timeout=120)
@@ -293,8 +329,24 @@ def compile_program(prog, workdir, mode="module", extra=DEFAULT_EXTRA, text=None
     if rc != 0:
         return None, "compiler_panic", out
     drv = os.path.join(workdir, "driver.rs")
+    desc_, module_text, inspect_path = None, None, None
+    if inspect:
+        import sys
+        if VERIF not in sys.path:
+            sys.path.insert(0, VERIF)
+        from translate import desc as _desc
+        module_text = open(os.path.join(outd, "thy.eql.rs")).read()
+        try:
+            desc_ = _desc.parse_module(module_text)
+        except _desc.DescError as ex:
+            return None, "desc_failed", str(ex)
+        inspect_path = os.path.join(outd, "inspect.rs")
+        with open(inspect_path, "w") as f:
+            f.write(_desc.inspect_rs(desc_))
+        if extra is DEFAULT_EXTRA:
+            extra = INSPECT_EXTRA
     with open(drv, "w") as f:
-        f.write(gen_driver_rs(prog, os.path.join(outd, "thy.eql.rs"), extra))
+        f.write(gen_driver_rs(prog, os.path.join(outd, "thy.eql.rs"), extra, inspect_path))
     exe = os.path.join(workdir, "drv")
     deps = os.path.dirname(rlib)
     cmd = ["rustc", "--edition", "2021", "-C", "opt-level=0", "-C", "debuginfo=0", "--cap-lints", "allow", drv, "-o", exe,
@@ -308,7 +360,9 @@ def compile_program(prog, workdir, mode="module", extra=DEFAULT_EXTRA, text=None
     rc, out = sh(cmd, timeout=600)
     if rc != 0:
         return None, "rustc_failed", out
-    return Built(workdir, exe, prog), "ok", ""
+    b = Built(workdir, exe, prog)
+    b.desc, b.module_text = desc_, module_text
+    return b, "ok", ""
 
 
 def parse_dump(line, prog):
